@@ -170,6 +170,7 @@ func c11Run(c *engine.Ctx) {
 	// point-on-line over moderate-magnitude floats: the near-collinear families of C10 (float-line
 	// lattice, exactly collinear mixed-magnitude triples with ulp perturbations, segments through
 	// the coordinate origin), every point of a triple queried against the segment of the other two
+	sweepMixedScale(c, func(a, b, p [2]float64) { c11LeanLine(c, "lean_line_queries", a, b, p) })
 	if c.Thorough() {
 		sweepFloatLines(c, 128, func(a, b, p [2]float64) { c11LeanLine(c, "lean_line_queries", a, b, p) })
 		sweepMixed(c, 20, 200, func(a, b, p [2]float64) { c11LeanLine(c, "lean_line_queries", a, b, p) })
